@@ -125,7 +125,7 @@ def verify_worker(job):
     from pyvc.engine import Unsupported
     v = build()
     c = v.reg.contracts[name]
-    out = {'name': name, 'obligations': [], 'unsupported': None, 'sha': '', 'kind': 'lemma' if c.lemma else 'function'}
+    out = {'name': name, 'obligations': [], 'unsupported': None, 'sha': '', 'kind': 'lemma' if c.lemma else 'function', 'warnings': []}
     try:
         v.verify(c)
         fi = v.db.function(c.target)
@@ -143,6 +143,7 @@ def verify_worker(job):
         solve_all(v.obligations, z3_timeout_ms=10000, cvc5_timeout_ms=20000, both=False, procs=1)
     else:
         solve_all(v.obligations, z3_timeout_ms=60000, cvc5_timeout_ms=60000, both=True, procs=1)
+    out['warnings'] = sorted(set(v.warnings))
     for o in v.obligations:
         keep = o.verdict != 'proved'
         out['obligations'].append({'oid': o.oid, 'kind': o.kind, 'func': o.func, 'note': o.note, 'verdict': o.verdict,
@@ -208,6 +209,9 @@ def run_check(prop, args, seed, t_start):
             print('%-8s %-6s %6.2fs %s' % (o.verdict, o.backend, o.time, o.oid))
         for r in funcs:
             print('contract %-70s %5d obligations' % (r['name'], r['obligations']))
+        for r in results if todo else []:
+            for w in r.get('warnings', []):
+                print('warning: ' + w)
 
     # ---- 3. counterexamples: replay on the real code ----------------------------------------------
     violations = []        # dicts: obligation, replay path, reproduced
